@@ -973,6 +973,64 @@ impl NamespaceHierarchy {
             .any(|slice| slice == needle_symbols)
     }
 
+    /// Split a string by a delimiter, delimiters inside angle brackets are ignored.
+    fn split_top_level<'a>(s: &'a str, delimiter: &str) -> Vec<&'a str> {
+        let bytes = s.as_bytes();
+        let mut parts = vec![];
+        let mut depth = 0usize;
+        let mut part_start = 0;
+        let mut pos = 0;
+        while pos < bytes.len() {
+            match bytes[pos] {
+                b'<' => depth += 1,
+                // `->` is a part of a fn pointer type, not a closing bracket
+                b'>' if pos > 0 && bytes[pos - 1] == b'-' => {}
+                b'>' => depth = depth.saturating_sub(1),
+                _ if depth == 0 && bytes[pos..].starts_with(delimiter.as_bytes()) => {
+                    parts.push(&s[part_start..pos]);
+                    pos += delimiter.len();
+                    part_start = pos;
+                    continue;
+                }
+                _ => {}
+            }
+            pos += 1;
+        }
+        parts.push(&s[part_start..]);
+        parts
+    }
+
+    /// Split a path (demangled subroutine name or a search template) into parts.
+    ///
+    /// A `::` inside angle brackets (generic arguments, `<T as Trait>` qualifier) is not a
+    /// delimiter. Elements that only v0 mangling scheme puts into a name are reduced to the form
+    /// that legacy scheme yields, so a path has the same parts for both schemes:
+    /// - generic arguments of a path are dropped (`ns::function::<T>` is `ns::function`)
+    /// - inherent impl qualifier is unfolded (`<krate::Type>::method` is `krate::Type::method`)
+    ///
+    /// # Arguments
+    ///
+    /// * `path`: demangled subroutine name or a search template
+    pub fn split_path(path: &str) -> Vec<String> {
+        let mut parts = vec![];
+        for (i, part) in Self::split_top_level(path, "::").into_iter().enumerate() {
+            let in_brackets = part.strip_prefix('<').and_then(|p| p.strip_suffix('>'));
+            match in_brackets {
+                Some(self_ty) if i == 0 && Self::split_top_level(self_ty, " as ").len() == 1 => {
+                    parts.extend(
+                        Self::split_top_level(self_ty, "::")
+                            .into_iter()
+                            .map(ToString::to_string),
+                    );
+                }
+                // `<impl T>` is how legacy scheme names an inherent impl of a primitive type
+                Some(_) if i != 0 && !part.starts_with("<impl ") => {}
+                _ => parts.push(part.to_string()),
+            }
+        }
+        parts
+    }
+
     /// Return (namespace, subroutine name) pair from mangled representation.
     ///
     /// # Arguments
@@ -982,7 +1040,7 @@ impl NamespaceHierarchy {
     pub fn from_mangled(linkage_name: &str) -> (Self, String) {
         let demangled = rustc_demangle::demangle(linkage_name);
         let demangled = format!("{demangled:#}");
-        let mut parts: Vec<_> = demangled.split("::").map(ToString::to_string).collect();
+        let mut parts = Self::split_path(&demangled);
         debug_assert!(!parts.is_empty());
         let fn_name = parts.pop().expect("function name must exists");
         (NamespaceHierarchy::new(parts), fn_name)
@@ -1018,12 +1076,68 @@ mod test {
                 expected_ns: vec![],
                 expected_fn: "poll",
             },
+            // legacy: trait impl method
+            TestCase {
+                mangled: "_ZN58_$LT$alloc..string..String$u20$as$u20$core..fmt..Debug$GT$3fmt17h0123456789abcdefE",
+                expected_ns: vec!["<alloc::string::String as core::fmt::Debug>".to_string()],
+                expected_fn: "fmt",
+            },
+            // v0: generic function instance, `mycrate::alpha::ident::<alloc::vec::Vec<u8>>`
+            TestCase {
+                mangled: "_RINvNtC7mycrate5alpha5identINtNtC5alloc3vec3VechEE",
+                expected_ns: vec!["mycrate".to_string(), "alpha".to_string()],
+                expected_fn: "ident",
+            },
+            // v0: inherent method, `<mycrate::Foo>::method`
+            TestCase {
+                mangled: "_RNvMC7mycrateNtB2_3Foo6method",
+                expected_ns: vec!["mycrate".to_string(), "Foo".to_string()],
+                expected_fn: "method",
+            },
+            // v0: trait impl method, `<mycrate::Foo as mycrate::Bar>::method`
+            TestCase {
+                mangled: "_RNvXC7mycrateNtB2_3FooNtB2_3Bar6method",
+                expected_ns: vec!["<mycrate::Foo as mycrate::Bar>".to_string()],
+                expected_fn: "method",
+            },
         ];
 
         for tc in test_cases {
             let (ns, name) = NamespaceHierarchy::from_mangled(tc.mangled);
             assert_eq!(ns.as_parts(), tc.expected_ns);
             assert_eq!(name, tc.expected_fn);
+        }
+    }
+
+    #[test]
+    fn test_split_path() {
+        let test_cases = [
+            ("fn1", vec!["fn1"]),
+            ("ns1::ns2::fn1", vec!["ns1", "ns2", "fn1"]),
+            ("ns1::fn1::<ns2::T1<u8>, fn(u8) -> ns2::T2>", vec!["ns1", "fn1"]),
+            ("ns1::fn1::<u8>::{closure#0}", vec!["ns1", "fn1", "{closure#0}"]),
+            ("<ns1::T1>::fn1", vec!["ns1", "T1", "fn1"]),
+            ("<ns1::T1<ns2::T2>>::fn1", vec!["ns1", "T1<ns2::T2>", "fn1"]),
+            (
+                "<ns1::T1 as ns2::Tr1>::fn1",
+                vec!["<ns1::T1 as ns2::Tr1>", "fn1"],
+            ),
+            (
+                "<fn(u8) -> ns1::T1 as ns2::Tr1>::fn1",
+                vec!["<fn(u8) -> ns1::T1 as ns2::Tr1>", "fn1"],
+            ),
+            (
+                "core::slice::<impl [T]>::len",
+                vec!["core", "slice", "<impl [T]>", "len"],
+            ),
+            (
+                "core::ptr::drop_in_place<alloc::string::String>",
+                vec!["core", "ptr", "drop_in_place<alloc::string::String>"],
+            ),
+        ];
+
+        for (path, expected) in test_cases {
+            assert_eq!(NamespaceHierarchy::split_path(path), expected);
         }
     }
 }
